@@ -85,6 +85,13 @@ deriving DecidableEq, Repr, Inhabited
 inductive Err | invalid | crash
 deriving DecidableEq, Repr, Inhabited
 
+instance : DecidableEq (Except Err Cursor) := fun x y =>
+  match x, y with
+  | .ok a, .ok b => if h : a = b then isTrue (by rw [h]) else isFalse (fun h' => by cases h'; exact h rfl)
+  | .error a, .error b => if h : a = b then isTrue (by rw [h]) else isFalse (fun h' => by cases h'; exact h rfl)
+  | .ok _, .error _ => isFalse (fun h => by cases h)
+  | .error _, .ok _ => isFalse (fun h => by cases h)
+
 abbrev Fwd := Cursor → Except Err Cursor
 
 /-- error-propagating composition: `_compose(f, g) = λx. f(g(x))` -/
@@ -286,14 +293,19 @@ def setIdx (p : Path) (k : Nat) (f : Nat → Nat) : Path :=
   | some (a, i) => p.set k (a, f i)
   | none => p
 
+/-- `cur_n > n and path == cur_path[:n] and attr == cur_path[n][0]` (used for the block list with
+    `path = block_path`, and for the gap list with `path = gap_path[:gap_n]`) -/
+def throughTest (E : Path) (a : Attr) (cur : Path) : Bool :=
+  decide (cur.length > E.length) && decide (E = cur.take E.length) &&
+    decide (a = (cur.getD E.length (Attr.body, 0)).1)
+
 /-- the Node branch of `_forward_move.forward` -/
 def fwdMoveNode (bp : Path) (ba : Attr) (lo hi : Nat) (gapPath : Path) (cur : Path) : Path :=
   let blockN := bp.length
   let gapN := gapPath.length - 1
   let editN := hi - lo
   let curB : Step := cur.getD blockN (.body, 0)
-  let throughBlock : Bool :=
-    decide (cur.length > blockN) && decide (bp = cur.take blockN) && decide (ba = curB.1)
+  let throughBlock : Bool := throughTest bp ba cur
   if throughBlock && !(decide (hi ≤ curB.2)) && decide (lo ≤ curB.2) then
     -- inside the original block: move to the gap location
     let ngp := if blockN ≤ gapN then newGapPath editN (bp ++ [(ba, lo)]) gapPath else gapPath
@@ -302,9 +314,7 @@ def fwdMoveNode (bp : Path) (ba : Attr) (lo hi : Nat) (gapPath : Path) (cur : Pa
   else
     let curG : Step := cur.getD gapN (.body, 0)
     let gapG : Step := gapPath.getD gapN (.body, 0)
-    let afterGap : Bool :=
-      decide (cur.length > gapN) && decide (gapPath.take gapN = cur.take gapN) &&
-      decide (gapG.1 = curG.1) && decide (gapG.2 ≤ curG.2)
+    let afterGap : Bool := throughTest (gapPath.take gapN) gapG.1 cur && decide (gapG.2 ≤ curG.2)
     let cur1 := if throughBlock && decide (hi ≤ curB.2) then setIdx cur blockN (· - editN) else cur
     if afterGap then setIdx cur1 gapN (· + editN) else cur1
 
